@@ -60,7 +60,9 @@ def _params(rnd, fam):
         return (lo, hi), feats
     if fam == "schulz_zimm":
         Mn = rnd.choice([36.0, 100.0, 150.0, 600.0, 1400.0, 4000.0, float(rnd.randrange(30, 3000))])
-        D = rnd.choice([1.02, 1.07, 1.2, 1.5, 1.9, 2.0, 2.4, round(rnd.uniform(1.01, 2.6), 3)])
+        D = rnd.choice([1.02, 1.07, 1.2, 1.5, 1.9, 2.0, 2.4, round(rnd.uniform(1.01, 2.6), 3), 1.003, 1.007])
+        if D < 1.01:
+            feats.append("region:nearly_monodisperse")
         Mw = float(round(Mn * D))
         if Mw <= Mn:
             Mw = Mn + 1.0
